@@ -125,6 +125,10 @@ func (o *orbitDBAccessController) CanAppend(entry logac.LogEntry, p identityprov
 
 	access := append(writeAccess, adminAccess...)
 
+	if err := accesscontroller.VerifyEntryIdentity(entry); err != nil {
+		return fmt.Errorf("unauthorized: %w", err)
+	}
+
 	for _, k := range access {
 		if k == entry.GetIdentity().ID || k == "*" {
 			return p.VerifyIdentity(entry.GetIdentity())
